@@ -285,7 +285,15 @@ func (gq *Schema) AddExtensions(e ...Extension) {
 // map-reduce
 func typeMapReducer(schema *Schema, typeMap TypeMap, objectType Type) (TypeMap, error) {
 	var err error
-	if objectType == nil || objectType.Name() == "" {
+	if objectType == nil {
+		return typeMap, nil
+	}
+	// A named type whose definition failed (it may not even have a name then) is an
+	// error wherever the schema refers to it, also below list / non-null wrappers.
+	if err := definitionError(objectType); err != nil {
+		return typeMap, err
+	}
+	if objectType.Name() == "" {
 		return typeMap, nil
 	}
 
@@ -391,6 +399,37 @@ func typeMapReducer(schema *Schema, typeMap TypeMap, objectType Type) (TypeMap, 
 		}
 	}
 	return typeMap, nil
+}
+
+// definitionError returns the error recorded while a named type was defined.
+func definitionError(ttype Type) error {
+	switch ttype := ttype.(type) {
+	case *Scalar:
+		if ttype != nil {
+			return ttype.err
+		}
+	case *Object:
+		if ttype != nil {
+			return ttype.err
+		}
+	case *Interface:
+		if ttype != nil {
+			return ttype.err
+		}
+	case *Union:
+		if ttype != nil {
+			return ttype.err
+		}
+	case *Enum:
+		if ttype != nil {
+			return ttype.err
+		}
+	case *InputObject:
+		if ttype != nil {
+			return ttype.err
+		}
+	}
+	return nil
 }
 
 func assertObjectImplementsInterface(schema *Schema, object *Object, iface *Interface) error {
